@@ -252,7 +252,9 @@ def run_segment(ch):
         probe.offset, probe.filesz = blob.offset, total - blob.offset
     else:
         probe.offset, probe.filesz = 0, total
-    probe.memsz = probe.filesz + ch.pick('memsz_extra', [0, 0x1000])
+    # the memory size says nothing about the file extent: larger (bss), zero (unmapped segments such as the PT_NOTE of a core dump), smaller
+    mz = ch.pick('p_memsz', ['filesz', 'filesz+0x1000', 'zero', 'half'])
+    probe.memsz = {'filesz': probe.filesz, 'filesz+0x1000': probe.filesz + 0x1000, 'zero': 0, 'half': probe.filesz // 2}[mz]
     data = img.encode()
     fails = []
     elf = guarded(_elf, data)
@@ -465,7 +467,7 @@ def spaces(tier, seed):
                     'x ch_addralign x sh_addralign x class x order; non-trivial = logical size > 0'),
         ListSpace('string-table-every-offset', _strtab_gen, _strtab_check, rule='tables holding strings of lengths {0,1,5,63,64,65},{127,128,129,300},{62,0,0,64,1},{191,192,193} '
                   '(one valid multi-byte UTF-8) at file positions shifted by 0/1/37, with and without an unterminated tail at EOF; get_string(o) for EVERY offset o'),
-        ChoiceSpace('segment-data-interp', run_segment, k, rule='interpreter path length {20,1,63,64,65,200,0} x alignment x segment extent {typical, 0, 1, to EOF, whole file} x p_type x table placement'),
+        ChoiceSpace('segment-data-interp', run_segment, k, rule='interpreter path length {20,1,63,64,65,200,0} x alignment x segment extent {typical, 0, 1, to EOF, whole file} x p_memsz {= filesz, larger, 0, half} x p_type x table placement'),
         ListSpace('address-offsets', _addr_gen, _addr_check, rule='PT_LOAD layouts (one, disjoint, overlapping, abutting, filesz<memsz, zero-size, none, different biases, identical twice, high) x decoy '
                   'non-LOAD segments x every (start,size) over boundary points +-2 and sizes {0,1,2,0x40..0x201, to each end+-1}: complete product'),
         BulkSpace('section-in-segment', _sis_part, 64, _sis_replay, rule='complete product: 12 segment types x 5 extents x 6 flag sets x {PROGBITS,NOBITS} x size {0,8} x 8 address geometries x 8 offset geometries '
